@@ -9,7 +9,7 @@
    queried before full and split claims in the farm scenarios).
    Statements only. *)
 From MD.Model Require Import Base Ownable Epoch PoolMath Types PoolManager FarmManager Chain.
-From MD.Proofs Require Import WeightProofs FarmProofs RewardProofs FarmCustody FarmCustodyChain ClaimFrame BankProofs TxFarm FarmCustody ClaimSplit ClaimTwice NonVacuity.
+From MD.Proofs Require Import WeightProofs FarmProofs RewardProofs FarmCustody FarmCustodyChain ClaimFrame BankProofs TxFarm FarmCustody ClaimSplit ClaimTwice NonVacuity PositionsSafe CursorSafe PositionsExample.
 
 Theorem C07_reward_formula : forall s f lp recv until lc rs,
   farm_rewards s f lp recv until lc = Ok rs ->
@@ -197,6 +197,22 @@ Proof. exact twice_example. Qed.
 Theorem C07_split_example : split_statement.
 Proof. exact split_example. Qed.
 
+(* OVER HISTORIES. A user's claim cursor (the last epoch paid to him) moves only through his own transactions: through ANY
+   history of operations that o does not sign - other users' positions, claims, closes, farm operations, calls between
+   the contracts, replies, rejected operations, injected faults - o's cursor is exactly what it was. Nobody else can
+   advance it (making him lose epochs) or rewind it (making an epoch payable to him twice). *)
+Theorem C07_claim_cursor_moves_only_by_its_owner : forall o ops w,
+  o <> EM -> o <> FC -> o <> PM -> o <> FM ->
+  Forall (not_signed_by o) ops ->
+  lc_get (fm_last_claimed (w_fm (run w ops))) o = lc_get (fm_last_claimed (w_fm w)) o.
+Proof. exact cursor_moves_only_by_its_owner. Qed.
+
+(* the hypotheses are met by a real history (kernel-evaluated): alice's cursor is 2; carol stakes and claims (her cursor
+   goes from none to 4), bob claims twice and closes his position, two days pass, every transaction accepted: alice's
+   cursor is still 2 *)
+Theorem C07_cursor_example : cursor_statement.
+Proof. exact cursor_example. Qed.
+
 Print Assumptions C07_reward_formula.
 Print Assumptions C07_reward_rounding.
 Print Assumptions C07_query_equals_claim_single_lp.
@@ -212,3 +228,5 @@ Print Assumptions C07_one_claim_pays_what_two_claims_pay_per_lp_denom.
 Print Assumptions C07_claiming_twice_pays_what_claiming_once_pays.
 Print Assumptions C07_claiming_twice_example.
 Print Assumptions C07_claiming_twice_pays_what_claiming_once_pays_any_number_of_lp_denoms.
+Print Assumptions C07_claim_cursor_moves_only_by_its_owner.
+Print Assumptions C07_cursor_example.
